@@ -97,16 +97,16 @@ def idm_spec(prop, tier):
     q = tier == "quick"
     if prop == "C05":
         if q:
-            return idm_runs((1, 2, 3), ("basic", "over"), 2) + idm_runs((4,), ("basic",), 2)
-        return idm_runs((1, 2, 3), ("basic", "over", "reuse"), 3, 300, 120) + idm_runs((4,), ("basic", "over"), 2, 300, 120)
+            return idm_runs((1, 2), ("basic", "over"), 2) + idm_runs((3,), ("basic", "over1"), 2) + idm_runs((4,), ("basic",), 2)
+        return idm_runs((1, 2, 3), ("basic", "over", "reuse"), 3, 600, 300) + idm_runs((4,), ("basic", "over1"), 2, 600, 300)
     if prop == "C14":
         if q:
-            return idm_runs((1, 2, 3), ("over", "reuse"), 2)
-        return idm_runs((1, 2, 3), ("over", "reuse", "big"), 3, 300, 120) + idm_runs((4,), ("over", "reuse"), 2, 300, 120)
+            return idm_runs((1, 2), ("over", "reuse"), 2) + idm_runs((3,), ("over1", "reuse1"), 2)
+        return idm_runs((1, 2, 3), ("over", "reuse", "big"), 3, 600, 300) + idm_runs((4,), ("over1", "reuse1"), 2, 600, 300)
     if prop == "C15":
         if q:
-            return idm_runs((1, 2, 3), ("basic", "over", "reuse"), 2)
-        return idm_runs((1, 2, 3), ("basic", "over", "reuse", "big"), 3, 300, 120) + idm_runs((4,), ("basic", "reuse"), 2, 300, 120)
+            return idm_runs((1, 2), ("basic", "over", "reuse"), 2) + idm_runs((3,), ("basic", "over1", "reuse1"), 2)
+        return idm_runs((1, 2, 3), ("basic", "over", "reuse", "big"), 3, 600, 300) + idm_runs((4,), ("basic", "reuse1"), 2, 600, 300)
     return None
 
 
@@ -182,6 +182,19 @@ def setup():
     for cap in (1, 2, 3):
         e1.harness_binary({"kind": "epoch", "cap": cap})
     e3.binary()
+    # audit of the instrumentation layer: plain build vs shim in pass-through mode
+    defs = ["CPP_UTILITY_HAS_SPINLOCK_HINT", "CPP_UTILITY_SPINLOCK_RETRY_NUM=10", "CPP_UTILITY_BACKOFF_TIME=10", "DBGROUP_MAX_THREAD_NUM=8"]
+    plain = D.build("smoke_plain", "all", "smoke.cpp", defs, shim=False, link_engine=False)
+    shim = D.build("smoke_shim", "all", "smoke.cpp", defs, shim=True, link_engine=True)
+    r1 = D.run_cmd([plain], 120)
+    r2 = D.run_cmd([shim], 120)
+    if r1[0] != 0 or r2[0] != 0 or r1[1] != r2[1] or not r1[1]:
+        print("INTERNAL-ERROR: shim audit failed: plain rc=%s shim rc=%s" % (r1[0], r2[0]))
+        import difflib
+        for line in list(difflib.unified_diff(r1[1].splitlines(), r2[1].splitlines(), "plain", "shim", lineterm=""))[:40]:
+            print("  " + line)
+        return 2
+    print("shim audit ok: %d observable lines identical between the plain and the instrumented (pass-through) build" % len(r1[1].splitlines()))
     print("setup ok (%.1fs)" % (time.time() - t0))
     return 0
 
